@@ -70,6 +70,7 @@ type evaluator struct {
 	annot  bool // annotations are needed by some schema
 	scope  []*resource
 	active map[visit]struct{}
+	steps  int
 }
 
 // annotations records which children of ONE instance location were
@@ -173,6 +174,9 @@ func fail(format string, a ...any) { panic(&DomainError{Msg: fmt.Sprintf(format,
 func (e *evaluator) eval(n *node, inst any, loc string, out *annotations) bool {
 	if n.boolean {
 		return n.value
+	}
+	if e.steps++; e.m.MaxSteps > 0 && e.steps > e.m.MaxSteps {
+		fail("evaluation budget of %d schema applications exceeded", e.m.MaxSteps)
 	}
 	key := visit{n, loc}
 	if _, again := e.active[key]; again {
